@@ -149,6 +149,9 @@ fn k_conv_ptr_eq_ignores_metadata() {
         let ph: *const dyn Tr = &h.0 as &dyn Tr;
         let d3: Gc<'_, dyn Tr> = Gc::from_ptr(ph);
         assert!(!Gc::ptr_eq(d1, d3), "[conv] different objects are not ptr_eq");
+        // the same for weak pointers
+        let (w1, w2, w3) = (Gc::downgrade(d1), Gc::downgrade(d2), Gc::downgrade(d3));
+        assert!(GcWeak::ptr_eq(w1, w2) && !GcWeak::ptr_eq(w1, w3), "[conv] GcWeak::ptr_eq compares addresses, not fat-pointer metadata");
         core::mem::forget(cx);
     }
 }
